@@ -312,6 +312,37 @@ def generate(tier):
         ext=sc_ext.format(macro="gc_arena::static_collect!(<T> H2<T> where T: Clone);", inst="u32", holds="false"))
     for name, (body, items) in fixed.items():
         add(f"fixed/{name}", body.replace("{m}", "m"), "reject_or_run", group="fixed", items=items)
+    # macro forms and method names that do not exist today: a positional (tuple-struct) field arm, an expected type that
+    # would force a deref coercion through a Gc field, Unlock on a pointer, and Cell-style mutators on the lock types
+    t2_ext = ("#[derive(Collect)]\n#[collect(no_drop)]\nstruct T2<'gc>(u8, Gc<'gc, Lk<'gc>>, Lk<'gc>);\n"
+              "type Ext<'gc> = Gc<'gc, T2<'gc>>;\nfn ext<'gc>(mc: &Mutation<'gc>) -> Ext<'gc> { Gc::new(mc, T2(0, Gc::new(mc, Lock::new(None)), Lock::new(None))) }\n"
+              "fn ext_holds<'gc>(e: &Ext<'gc>) -> bool { e.1.get().is_some() || e.2.get().is_some() }\n")
+    add("macro_forms/field_positional_own_lock", "field!(Gc::write(mc, *ext), T2, 2).unlock().set(Some(child));", group="macro_forms", ext=t2_ext)
+    add("macro_forms/field_positional_through_gc", "let w: &Write<Lk<'_>> = field!(Gc::write(mc, *ext), T2, 1); w.unlock().set(Some(child));", group="macro_forms", ext=t2_ext)
+    add("macro_forms/unlock_positional_through_gc", "let c: &Cell<Option<Gc<'_, Child>>> = unlock!(Gc::write(mc, *ext), T2, 1); c.set(Some(child));", group="macro_forms", ext=t2_ext)
+    add("macro_forms/field_named_coerced_through_gc", "let w: &Write<Lk<'_>> = field!(Gc::write(mc, h), Holder, gc); w.unlock().set(Some(child));", group="macro_forms")
+    add("macro_forms/field_named_coerced_through_box", "let w: &Write<Lk<'_>> = field!(Gc::write(mc, h), Holder, boxgc); w.unlock().set(Some(child));", group="macro_forms")
+    for f, sinkstmt in (("gc", ".unlock().set(Some(child));"), ("gcr", ".unlock().borrow_mut().replace(child);"), ("gco", ".unlock().set(child);")):
+        add(f"macro_forms/unlock_on_pointer_field/{f}", f"let _ = field!(Gc::write(mc, h), Holder, {f}){sinkstmt}", group="macro_forms")
+    cellish = {
+        "lock_swap": "let other = Lock::new(Some(child)); h.slot.swap(&other);",
+        "lock_replace": "let _ = h.slot.replace(Some(child));",
+        "lock_update": "let _ = h.slot.update(|_| Some(child));",
+        "lock_as_ptr_write": "let p = h.slot.as_ptr();",
+        "gc_lock_swap_without_mc": "let other = Gc::new(mc, Lock::new(Some(child))); h.gc.swap(&other);",
+        "gc_lock_replace_without_mc": "let _ = h.gc.replace(Some(child));",
+        "reflock_replace": "let _ = h.rslot.replace(Some(child));",
+        "reflock_replace_with": "let _ = h.rslot.replace_with(|_| Some(child));",
+        "reflock_swap": "let other = RefLock::new(Some(child)); h.rslot.swap(&other);",
+        "reflock_try_borrow_mut": "*h.rslot.try_borrow_mut().unwrap() = Some(child);",
+        "oncelock_set": "let _ = h.oslot.set(child);",
+        "oncelock_get_or_init": "let _ = h.oslot.get_or_init(|| child);",
+        "oncelock_get_or_try_init": "let _ = h.oslot.get_or_try_init(|| Ok::<_, ()>(child));",
+    }
+    for name, body in cellish.items():
+        if name == "lock_as_ptr_write":
+            continue
+        add(f"cell_style_mutators/{name}", body, group="cell_style_mutators")
     # D4 family seen from C13: a root type that is only well-formed if 'gc: 'static hands the callback the implied bound,
     # under which every `T: 'static` guard of the barrier API is satisfiable for branded data (known finding, same root cause as C12's)
     IMPLIED = '''#![forbid(unsafe_code)]
@@ -366,7 +397,7 @@ fn main() {
         add(f"user_index_type/{cname}/from_mut_local", f"(&Write::from_mut(&mut {mk})[Via]).unlock().set(Some(child));", group="user_index_type", items=items)
     return {
         "probes": ps,
-        "rule": f"typed term grammar, depth <= {depth} projections: Write source {{Gc::write on the black holder, Gc::write on a white co-owner sharing its Rc/Arc/Gc fields, Write::from_mut of a reference / a clone / a local carrier (Box, Rc, Arc, Vec, array, Option, Result, VecDeque, BTreeMap, HashMap) of a reference, Write::from_static}} x {len(FIELDS)} holder fields (Lock, RefLock, OnceLock directly and behind Box, Rc, Arc, Vec, array, VecDeque, BTreeMap, HashMap, Option, Result, Gc, nested struct, and two-level nestings) x projection chains {{as_deref, as_write, index, range index, key index, field!}} typed under an over-approximate model (DerefWrite / IndexWrite assumed for every pointer and container incl. Gc) x sink by lock kind; plus fixed probes (forged Write, unsafe accessors without unsafe, Cell/RefCell fields under derive incl. require_static + bound combinations, Static<Cell>, user Unlock / DerefWrite / IndexWrite impls, user index types that deref a Gc element). Every accepted program is run: holder black in a fully marked arena (first and later cycle), fresh white child; violation = child reachable through the holder but destructed. client types covered by static_collect! (generic with / without where clause, concrete) instantiated with a pointer. Non-trivial = all but the 10 controls",
+        "rule": f"typed term grammar, depth <= {depth} projections: Write source {{Gc::write on the black holder, Gc::write on a white co-owner sharing its Rc/Arc/Gc fields, Write::from_mut of a reference / a clone / a local carrier (Box, Rc, Arc, Vec, array, Option, Result, VecDeque, BTreeMap, HashMap) of a reference, Write::from_static}} x {len(FIELDS)} holder fields (Lock, RefLock, OnceLock directly and behind Box, Rc, Arc, Vec, array, VecDeque, BTreeMap, HashMap, Option, Result, Gc, nested struct, and two-level nestings) x projection chains {{as_deref, as_write, index, range index, key index, field!}} typed under an over-approximate model (DerefWrite / IndexWrite assumed for every pointer and container incl. Gc) x sink by lock kind; plus fixed probes (forged Write, unsafe accessors without unsafe, Cell/RefCell fields under derive incl. require_static + bound combinations, Static<Cell>, user Unlock / DerefWrite / IndexWrite impls, user index types that deref a Gc element). Every accepted program is run: holder black in a fully marked arena (first and later cycle), fresh white child; violation = child reachable through the holder but destructed. macro forms that do not exist today (positional field arm, expected types forcing a deref coercion, Unlock on a pointer field) and Cell-style mutator names on Lock / RefLock / OnceLock without a Mutation; client types covered by static_collect! (generic with / without where clause, concrete) instantiated with a pointer. Non-trivial = all but the 10 controls",
         "post": post,
         "level": "exploration",
         "assumptions": ["pinned rustc 1.95 decides acceptance", "exhaustive over the stated grammar, not over all safe programs", "accepted programs are run in one scenario family (holder black / fully marked arena, before and after a first cycle)"],
